@@ -337,9 +337,10 @@ class H2Drive:
                 d.task_pc = "parked"
                 raise
             d.rec("next", sid)
-            if sid not in tree._streams and d.ghost_at is None:
-                # the library assumption "next() returns a member of the tree" fails (priority 2.0.0 after a dependency
-                # loop): the model cannot follow from here; the monitors still judge the run
+            node = tree._streams.get(sid)
+            if (node is None or not node.active) and d.ghost_at is None:
+                # the library assumption "next() returns an unblocked member of the tree" fails (priority 2.0.0 after a
+                # dependency loop keeps a removed node scheduled): the model cannot follow from here; the monitors still judge
                 d.ghost_at = len(d.ops)
             d.emit({"op": "pick", "i": sid})
             d.pick_cur, d.pick_flushes, d.pick_ended = sid, 0, False
@@ -614,6 +615,11 @@ class H2Drive:
                         entry["ret"] = type(e).__name__
                         break
                     entry["ret_at"] = len(d.ops)
+                    if msg is not None and msg["type"] == "http.response.body" and not msg.get("more_body"):
+                        # the send of the end of the body has returned: is END_STREAM on the wire (or the stream / connection gone)?
+                        entry["final"] = True
+                        entry["end_on_wire"] = bool(sid in d.ledger.end_stream or sid in d.ledger.rst or sid in d.client_rst or d.proto.closed
+                                                    or d.fail_writes or d.transport_closed)
                     if msg is not None and msg["type"] == "http.response.body":
                         st["accepted"] += len(msg["body"])
                     if msg is None:
@@ -941,7 +947,8 @@ class H2Drive:
                            "headers": dict(self.ledger.headers), "data_after_end": list(self.ledger.data_after_end), "frames": {k: list(v) for k, v in self.ledger.frames.items()},
                            "order": list(self.ledger.order)},
                 "apps": apps, "held_max": dict(self.held_max), "max_write": dict(self.max_write), "sendtask_error": self.sendtask_error, "reader_error": self.reader_error,
-                "errors": self.errors, "next_calls": self.next_calls, "lib_calls": self.lib_calls, "up": self.up, "log": self.log,
+                "errors": self.errors, "next_calls": self.next_calls, "lib_calls": self.lib_calls, "up": self.up,
+                "log": self.log if self.sc.get("keep_log") else self.log[-40:],
                 "sched_points": self.sched.points, "skipped": self.skipped, "client_rst": list(self.client_rst), "ghost_at": self.ghost_at, "runaway": self.runaway}
 
 
@@ -955,6 +962,15 @@ def expected_payload(sid: int, sizes: List[int]) -> bytes:
             out += (unit * (n // max(1, len(unit)) + 1))[:n]
         acc += n
     return out
+
+
+def limit_memory(gib: float = 6.0) -> None:
+    """a registered check must never take the box down: cap this process' address space (set after the Lean build)"""
+    import resource
+    soft, hard = resource.getrlimit(resource.RLIMIT_AS)
+    cap = int(gib * (1 << 30))
+    if soft == resource.RLIM_INFINITY or soft > cap:
+        resource.setrlimit(resource.RLIMIT_AS, (cap, hard))
 
 
 def run_scenario(scenario: dict) -> dict:
@@ -1195,7 +1211,10 @@ def monitor_c09(sc: dict, res: dict) -> List[Tuple[str, Any, dict]]:
         v = led["violations"][0]
         kind = "frame_size" if v["frame"] > v["max_frame"] else ("stream_window" if v["frame"] > max(0, v["stream_window"]) else "connection_window")
         out.append(("flow_control_exceeded", v, {**base, "kind": kind}))
-    if res["client"]["error"]:
+    if res["client"]["error"] and "shrunk below 0" not in res["client"]["error"]:
+        # ("Flow control window shrunk below 0" is the h2 library, in client role, refusing a SETTINGS decrease that makes its
+        #  own receive window negative - legal per RFC 7540 6.9.2; it can still happen when DATA was in flight while the
+        #  harness checked `settings_ok`.  The ledger keeps judging such a run; the run ends there.)
         out.append(("client_parser_error", res["client"]["error"], {**base, "error": res["client"]["error"].split(":")[0]}))
     # the send task / reader survive whatever the client and the applications do
     if res["sendtask_error"]:
@@ -1220,6 +1239,11 @@ def monitor_c09(sc: dict, res: dict) -> List[Tuple[str, Any, dict]]:
         if ends >= 1 and (got != want or sid not in f["ended_by_app"]):
             out.append(("end_stream_before_everything_was_sent", {"sid": sid, "got": len(got), "written": len(want), "app_ended": sid in f["ended_by_app"]},
                         {**base, "after": f["terminal"] or "none"}))
+    # the application's send of the end of the body returns only once END_STREAM has been written
+    for sid_s, app in res["apps"].items():
+        for snd in app["sends"]:
+            if snd.get("final") and snd.get("ret") == "ok" and not snd.get("end_on_wire"):
+                out.append(("final_send_returned_before_end_stream", {"sid": int(sid_s), "at": snd.get("ret_at")}, base))
     # delivered completely, followed by exactly one END_STREAM, once quiescent with the windows open
     if f["terminal"] is None and not res["errors"] and not res["client"]["error"] and f["final"] and f["final"]["quiet"]:
         for sid_s, app in res["apps"].items():
